@@ -26,3 +26,10 @@ From DX Require Import GeneratedClassTable ClassTableChecks ClassTableState.
 Theorem C15_state_free_table : state_free_b = true.
 Proof. exact state_free_table. Qed.
 Print Assumptions C15_state_free_table.
+
+(* T-GEN: the process-global mutable state found in the current source is exactly the reviewed one (a new cache / memo table /
+   registry, or a reviewed one read from a new function, breaks this obligation until it has been reviewed) *)
+Theorem C15_global_state_reviewed :
+  subset_b mutable_globals mutable_globals_reviewed = true /\ subset_b function_global_reads function_global_reads_reviewed = true.
+Proof. exact (conj global_state_reviewed function_global_reads_are_reviewed). Qed.
+Print Assumptions C15_global_state_reviewed.
